@@ -114,7 +114,7 @@ type c13State struct {
 type c13Act struct{ Op, A, B string }
 
 var c13Alphabet = []c13Act{
-	{"status", "404", ""}, {"status", "500", ""}, {"header", "X-A", "1"}, {"header", "X-A", "2"},
+	{"status", "200", ""}, {"status", "404", ""}, {"status", "500", ""}, {"header", "X-A", "1"}, {"header", "X-A", "2"},
 	{"cookie", "c", "1"}, {"write", "a", ""}, {"write", "b", ""}, {"json", "", ""},
 	{"html", "h", ""}, {"html", "h", "201"}, {"redirect", "/u", ""}, {"redirect", "/u", "301"},
 	{"noContent", "", ""}, {"noContent", "205", ""}, {"writeHeader", "202", ""},
@@ -189,7 +189,7 @@ func C13(c *Ctx) *kf.Report {
 	rep.Assumptions = []string{
 		"TLC 1.8 and the CommunityModules Json module print the Ref layer's state graph faithfully",
 		"httptest.ResponseRecorder wrapped by a commit counter stands for the underlying connection (first WriteHeader wins, header map snapshotted at commit)",
-		"operation arguments are the 15 concrete operations of Response.tla!Ops",
+		"operation arguments are the 16 concrete operations of Response.tla!Ops",
 	}
 	maxOps := c.Pick(3, 4)
 	// 1. model check both layers and print the Ref graph
@@ -379,7 +379,7 @@ func C13(c *Ctx) *kf.Report {
 	rep.Coverage["traces_validated_against_impl"] = paths
 	rep.Coverage["evaluations"] = stepsCompared
 	rep.Coverage["distinct_nontrivial"] = len(nontrivial)
-	rep.Coverage["rule"] = fmt.Sprintf("every maximal path of the Ref state graph with MaxOps=%d (all op sequences of length <= %d over 15 operations, each followed by end) replayed through the real Server/Response objects, projection compared after every step; plus seeded walks of length <= %d; non-trivial = committed behaviours with >= 3 steps", maxOps, maxOps, simOps)
+	rep.Coverage["rule"] = fmt.Sprintf("every maximal path of the Ref state graph with MaxOps=%d (all op sequences of length <= %d over 16 operations, each followed by end) replayed through the real Server/Response objects, projection compared after every step; plus seeded walks of length <= %d; non-trivial = committed behaviours with >= 3 steps", maxOps, maxOps, simOps)
 	rep.Coverage["exhaustive"] = true
 	rep.Coverage["exhaustive_paths"] = exhaustivePaths
 	sort.Slice(samples, func(i, j int) bool { return jsonStr(samples[i]) < jsonStr(samples[j]) })
